@@ -105,6 +105,7 @@ func New(o Opts) (*Env, error) {
 		e.O.Workers = 2
 	}
 	conf.SkipFsync = e.O.SkipFsync
+	conf.UseSeqQLByDefault = true
 	mp, err := mappingprovider.New("", mappingprovider.WithMapping(e.O.Mapping))
 	if err != nil {
 		return nil, err
@@ -210,6 +211,17 @@ func (e *Env) Close() {
 	if e.Store != nil {
 		e.Store.WaitIdle()
 		e.Store.FracManager.Stop()
+		if e.ownDir {
+			// release file descriptors and memory of every fraction (the directory is removed anyway)
+			// (not the current active one: the store's leaked bulkStats goroutine keeps calling
+			// Active().Info(), which dereferences nil on a suicided proxy fraction)
+			act := e.Store.FracManager.Active().Info().Name()
+			for _, f := range e.Store.FracManager.GetAllFracs() {
+				if f.Info().Name() != act {
+					f.Suicide()
+				}
+			}
+		}
 	}
 	if e.ownDir {
 		os.RemoveAll(e.O.Dir)
